@@ -7,6 +7,7 @@ import (
 	"math/big"
 	"math/bits"
 	"sort"
+	"strings"
 	"sync"
 	"testing"
 
@@ -287,11 +288,16 @@ type verifC17Case struct {
 	bitmap   []byte
 	mode     string
 	tampered bool
+	shape    string // large-group cases only: how the signer set and the extra bits were placed
 }
 
 func (vc *verifC17Case) String() string {
-	return fmt.Sprintf("n=%d threshold=%d fallback=%v signers(%d)=%v bitmap=%08b mode=%s tampered=%v",
+	s := fmt.Sprintf("n=%d threshold=%d fallback=%v signers(%d)=%v bitmap=%08b mode=%s tampered=%v",
 		vc.n, vc.thr, vc.fallback, len(vc.signers), vc.signers, vc.bitmap, vc.mode, vc.tampered)
+	if vc.shape != "" {
+		s += " shape=" + vc.shape
+	}
+	return s
 }
 
 func verifC17GenCase(rt *rapid.T, maxN int) *verifC17Case {
@@ -485,7 +491,6 @@ func verifC17Run(t *testing.T, maxN int, budget kit.Budget, rule string) {
 	kit.Run(t, "C17", budget, rule, func(rt *rapid.T, c *kit.Case) {
 		vc := verifC17GenCase(rt, maxN)
 		hdr := verifC17GenHeader(rt)
-		n, thr := vc.n, vc.thr
 
 		hash, err := f.signedHash(hdr)
 		if err != nil {
@@ -509,80 +514,87 @@ func verifC17Run(t *testing.T, maxN int, budget kit.Budget, rule string) {
 			rt.Fatalf("fixture: verifier: %v", err)
 		}
 
-		inGroup := verifC17InGroupCount(vc.bitmap, n)
-		foreign := verifC17ForeignCount(vc.bitmap, n)
-		expectedLen := len(vc.bitmap) == (n+7)/8
-
-		c.Class("mode:" + vc.mode)
-		c.Class(fmt.Sprintf("n%%8=%d", n%8))
-		if vc.fallback {
-			c.Class("fallback")
-		}
-		if foreign > 0 {
-			c.Class("foreign-bits-set")
-		}
-		if vc.tampered {
-			c.Class("tampered-after-signing")
-		}
-		nearQuorum := len(vc.signers) == thr-1 || len(vc.signers) == thr
-		if nearQuorum && expectedLen && verifC17Bit(vc.bitmap, 0) {
-			c.NonTrivial(fmt.Sprint(n, vc.fallback, vc.signers, vc.bitmap, vc.tampered))
-			if foreign > 0 {
-				c.Class("nontrivial-with-padding-bits")
-				c.Sample("%s", vc)
-			}
-		}
-
-		var verdict error
-		c.NoPanic("C17:verify-panic", func() { verdict = hsv.VerifySignature(hdr) })
-		if verdict != nil {
-			c.Class("rejected")
-			bitsAreSigners := inGroup == len(vc.signers)
-			for _, s := range vc.signers {
-				bitsAreSigners = bitsAreSigners && verifC17Bit(vc.bitmap, s)
-			}
-			if !vc.tampered && expectedLen && foreign == 0 && bitsAreSigners && verifC17Bit(vc.bitmap, 0) && len(vc.signers) >= thr {
-				// honest header with a quorum: measured only (completeness is not part of the statement)
-				c.Class("honest-quorum-rejected")
-			}
-			return
-		}
-		c.Class("accepted")
-		if inGroup < thr && expectedLen && inGroup+foreign >= thr {
-			// exactly the recorded defect class: the quorum is only reached when the unused (padding) bits of the
-			// last bitmap byte are counted as signatures
-			c.Violation(verifC17KeyPadding,
-				"accepted although only %d bitmap bits belong to group members (< threshold %d): the %d padding bits of the last byte were counted: %s",
-				inGroup, thr, foreign, vc)
-		}
-		if inGroup < thr {
-			c.Violation("C17:accepted-below-quorum-bits",
-				"accepted although only %d bitmap bits belong to group members (< threshold %d); %d bits outside the group were set: %s",
-				inGroup, thr, foreign, vc)
-		}
-		if contributors < thr {
-			c.Violation("C17:accepted-below-quorum-signers",
-				"accepted although only %d members contributed to the aggregated signature (< threshold %d): %s",
-				contributors, thr, vc)
-		}
-		if foreign > 0 {
-			c.Class("accepted-with-foreign-bits")
-			// metamorphic: bits outside the group never matter -> clearing them keeps the header accepted
-			clean := append([]byte(nil), vc.bitmap...)
-			for i := n; i < 8*len(clean); i++ {
-				verifC17ClearBit(clean, i)
-			}
-			if expectedLen {
-				hdr.SetPubKeysBitmap(clean)
-				var v2 error
-				c.NoPanic("C17:verify-panic", func() { v2 = hsv.VerifySignature(hdr) })
-				if v2 != nil {
-					c.Violation("C17:padding-bits-changed-verdict",
-						"accepted with padding bits set but rejected (%v) once they are cleared: %s", v2, vc)
-				}
-			}
-		}
+		verifC17Judge(c, hsv, hdr, vc, contributors)
 	})
+}
+
+// verifC17Judge is the oracle shared by the small-group and the large-group test: hdr carries the aggregated
+// signature and the bitmap of vc; contributors = number of distinct members that really signed this header.
+func verifC17Judge(c *kit.Case, hsv *HeaderSigVerifier, hdr data.HeaderHandler, vc *verifC17Case, contributors int) {
+	n, thr := vc.n, vc.thr
+	inGroup := verifC17InGroupCount(vc.bitmap, n)
+	foreign := verifC17ForeignCount(vc.bitmap, n)
+	expectedLen := len(vc.bitmap) == (n+7)/8
+
+	c.Class("mode:" + vc.mode)
+	c.Class(fmt.Sprintf("n%%8=%d", n%8))
+	if vc.fallback {
+		c.Class("fallback")
+	}
+	if foreign > 0 {
+		c.Class("foreign-bits-set")
+	}
+	if vc.tampered {
+		c.Class("tampered-after-signing")
+	}
+	nearQuorum := len(vc.signers) == thr-1 || len(vc.signers) == thr
+	if nearQuorum && expectedLen && verifC17Bit(vc.bitmap, 0) {
+		c.NonTrivial(fmt.Sprint(n, vc.fallback, vc.signers, vc.bitmap, vc.tampered))
+		if foreign > 0 {
+			c.Class("nontrivial-with-padding-bits")
+			c.Sample("%s", vc)
+		}
+	}
+
+	var verdict error
+	c.NoPanic("C17:verify-panic", func() { verdict = hsv.VerifySignature(hdr) })
+	if verdict != nil {
+		c.Class("rejected")
+		bitsAreSigners := inGroup == len(vc.signers)
+		for _, s := range vc.signers {
+			bitsAreSigners = bitsAreSigners && verifC17Bit(vc.bitmap, s)
+		}
+		if !vc.tampered && expectedLen && foreign == 0 && bitsAreSigners && verifC17Bit(vc.bitmap, 0) && len(vc.signers) >= thr {
+			// honest header with a quorum: measured only (completeness is not part of the statement)
+			c.Class("honest-quorum-rejected")
+		}
+		return
+	}
+	c.Class("accepted")
+	if inGroup < thr && expectedLen && inGroup+foreign >= thr {
+		// exactly the recorded defect class: the quorum is only reached when the unused (padding) bits of the
+		// last bitmap byte are counted as signatures
+		c.Violation(verifC17KeyPadding,
+			"accepted although only %d bitmap bits belong to group members (< threshold %d): the %d padding bits of the last byte were counted: %s",
+			inGroup, thr, foreign, vc)
+	}
+	if inGroup < thr {
+		c.Violation("C17:accepted-below-quorum-bits",
+			"accepted although only %d bitmap bits belong to group members (< threshold %d); %d bits outside the group were set: %s",
+			inGroup, thr, foreign, vc)
+	}
+	if contributors < thr {
+		c.Violation("C17:accepted-below-quorum-signers",
+			"accepted although only %d members contributed to the aggregated signature (< threshold %d): %s",
+			contributors, thr, vc)
+	}
+	if foreign > 0 {
+		c.Class("accepted-with-foreign-bits")
+		// metamorphic: bits outside the group never matter -> clearing them keeps the header accepted
+		clean := append([]byte(nil), vc.bitmap...)
+		for i := n; i < 8*len(clean); i++ {
+			verifC17ClearBit(clean, i)
+		}
+		if expectedLen {
+			hdr.SetPubKeysBitmap(clean)
+			var v2 error
+			c.NoPanic("C17:verify-panic", func() { v2 = hsv.VerifySignature(hdr) })
+			if v2 != nil {
+				c.Violation("C17:padding-bits-changed-verdict",
+					"accepted with padding bits set but rejected (%v) once they are cleared: %s", v2, vc)
+			}
+		}
+	}
 }
 
 func TestVerifC17_Quorum(t *testing.T) {
@@ -781,4 +793,502 @@ func TestVerifC17_ExhaustiveOneByte(t *testing.T) {
 		}
 	}
 	p.Exhaustive()
+}
+
+// ---------------------------------------------------------------------------------------------------------------
+// Large consensus groups (64..400 members; mainnet: 63 per shard, 400 on the metachain).
+//
+// Same oracle (verifC17Judge), same real verifier and multi-signer. To make a 400-member case affordable in the
+// quick tier, the pool of 401 deterministic key pairs is generated once per process, the header is one of two fixed
+// headers per process (a shard header and a meta block), so that the signature share of every pool key over each of
+// them is computed once and cached; per case only the aggregation (for the drawn signer set) and the verification run.
+
+const verifC17LargePoolSize = 401 // prime: any stride 1..400 enumerates the pool; >= the metachain group of 400
+
+var verifC17LargeSizes = []int{64, 65, 72, 100, 255, 256, 257, 264, 400}
+
+type verifC17LargeFixture struct {
+	*verifC17Fixture
+	lprivs   []crypto.PrivateKey
+	lpubs    []string
+	lpubKeys []crypto.PublicKey
+	headers  []data.HeaderHandler // fixed, never modified (cases work on clones)
+	hashes   [][]byte
+	shares   [][][]byte // [header][pool index]
+	initErr  error
+}
+
+var (
+	verifC17LargeOnce sync.Once
+	verifC17LargeFix  *verifC17LargeFixture
+)
+
+func verifC17GetLargeFixture() *verifC17LargeFixture {
+	verifC17LargeOnce.Do(func() {
+		lf := &verifC17LargeFixture{verifC17Fixture: verifC17GetFixture()}
+		verifC17LargeFix = lf
+		f := lf.verifC17Fixture
+		if f.initErr != nil {
+			lf.initErr = f.initErr
+			return
+		}
+		lf.lprivs = append(lf.lprivs, f.privs...)
+		lf.lpubs = append(lf.lpubs, f.pubs...)
+		lf.lpubKeys = append(lf.lpubKeys, f.pubKeys...)
+		for i := len(lf.lprivs); i < verifC17LargePoolSize; i++ {
+			h := sha256.Sum256([]byte(fmt.Sprintf("verif-c17-key-%d", i)))
+			h[0], h[31] = 0, 0
+			h[1] |= 1
+			sk, err := f.kg.PrivateKeyFromByteArray(h[:])
+			if err != nil {
+				lf.initErr = fmt.Errorf("private key %d: %w", i, err)
+				return
+			}
+			pk := sk.GeneratePublic()
+			pkb, err := pk.ToByteArray()
+			if err != nil {
+				lf.initErr = err
+				return
+			}
+			lf.lprivs = append(lf.lprivs, sk)
+			lf.lpubKeys = append(lf.lpubKeys, pk)
+			lf.lpubs = append(lf.lpubs, string(pkb))
+		}
+		seen := map[string]bool{}
+		for _, p := range lf.lpubs {
+			if seen[p] {
+				lf.initErr = fmt.Errorf("key pool contains a public key twice")
+				return
+			}
+			seen[p] = true
+		}
+		zeroEconomics := dataBlock.Economics{TotalSupply: big.NewInt(0), TotalToDistribute: big.NewInt(0), TotalNewlyMinted: big.NewInt(0),
+			RewardsPerBlock: big.NewInt(0), NodePrice: big.NewInt(0), RewardsForProtocolSustainability: big.NewInt(0)}
+		lf.headers = []data.HeaderHandler{
+			&dataBlock.Header{Nonce: 4711, Epoch: 2, Round: 4800, ShardID: 1, PrevHash: []byte("verif-c17 previous hash"),
+				PrevRandSeed: []byte("verif-c17 previous seed"), RandSeed: []byte("verif-c17 seed"), RootHash: []byte("verif-c17 root"),
+				LeaderSignature: []byte("leader signature"), ChainID: []byte("1"), AccumulatedFees: big.NewInt(17), DeveloperFees: big.NewInt(0), TxCount: 3},
+			&dataBlock.MetaBlock{Nonce: 815, Epoch: 3, Round: 900, PrevHash: []byte("verif-c17 previous meta hash"),
+				PrevRandSeed: []byte("verif-c17 previous meta seed"), RandSeed: []byte("verif-c17 meta seed"), RootHash: []byte("verif-c17 meta root"),
+				LeaderSignature: []byte("leader signature"), ChainID: []byte("1"), AccumulatedFees: big.NewInt(400),
+				AccumulatedFeesInEpoch: big.NewInt(0), DeveloperFees: big.NewInt(0), DevFeesInEpoch: big.NewInt(0),
+				EpochStart: dataBlock.EpochStart{Economics: zeroEconomics}},
+		}
+		for _, h := range lf.headers {
+			hash, err := f.signedHash(h)
+			if err != nil {
+				lf.initErr = err
+				return
+			}
+			lf.hashes = append(lf.hashes, hash)
+			shares := make([][]byte, verifC17LargePoolSize)
+			for i := range shares {
+				shares[i], err = f.ll.SignShare(lf.lprivs[i], hash)
+				if err != nil {
+					lf.initErr = err
+					return
+				}
+			}
+			lf.shares = append(lf.shares, shares)
+		}
+	})
+	return verifC17LargeFix
+}
+
+// aggregate = what the leader does with the cached shares of the signers (group order)
+func (lf *verifC17LargeFixture) aggregate(hdrIdx int, group []int, signers []int) ([]byte, error) {
+	shares := make([][]byte, 0, len(signers))
+	pks := make([]crypto.PublicKey, 0, len(signers))
+	for _, s := range signers {
+		shares = append(shares, lf.shares[hdrIdx][group[s]])
+		pks = append(pks, lf.lpubKeys[group[s]])
+	}
+	return lf.ll.AggregateSignatures(lf.kg.Suite(), shares, pks)
+}
+
+func (lf *verifC17LargeFixture) largeVerifier(group []int, fallback bool) (*HeaderSigVerifier, error) {
+	pubs := make([]string, len(group))
+	for i, g := range group {
+		pubs[i] = lf.lpubs[g]
+	}
+	return NewHeaderSigVerifier(&ArgsHeaderSigVerifier{
+		Marshalizer: lf.marsh,
+		Hasher:      lf.hasher,
+		NodesCoordinator: &mock.NodesCoordinatorMock{
+			GetValidatorsPublicKeysCalled: func(_ []byte, _ uint64, _ uint32, _ uint32) ([]string, error) {
+				return pubs, nil
+			},
+		},
+		MultiSigVerifier:  lf.baseMS,
+		SingleSigVerifier: &mock.SignerMock{},
+		KeyGen:            lf.kg,
+		FallbackHeaderValidator: &testscommon.FallBackHeaderValidatorStub{
+			ShouldApplyFallbackValidationCalled: func(_ data.HeaderHandler) bool { return fallback },
+		},
+	})
+}
+
+// verifC17GenLargeCase draws a group of 64..400 members, a signer set whose size is around the threshold and a bitmap
+// crafted around it. Beyond the shapes of the small-group generator:
+//   - signer sets: first k / leader + last k-1 / leader + a contiguous run at a drawn offset / random subset /
+//     periodic in the member index with a power-of-two period 8..256 (S = {i : i mod p in P}, P grown in a drawn
+//     order until |S| reaches k) - the class that tells apart index arithmetic done per byte, per machine word or in
+//     a narrower integer type;
+//   - the bits that nobody signed for (plus-nonsigners, fill-to-quorum) are taken from a drawn focus region: anywhere /
+//     the members beyond the last multiple of the period (for non-periodic sets: of the largest power of two below n;
+//     for n > 256 these are indices >= 256) / the last, partial 8-byte chunk of the bitmap / one byte position (0..7) of
+//     every 8-byte chunk;
+//   - padding bits as before.
+func verifC17GenLargeCase(rt *rapid.T) *verifC17Case {
+	vc := &verifC17Case{}
+	switch kind := rapid.IntRange(0, 13).Draw(rt, "nKind"); {
+	case kind < len(verifC17LargeSizes):
+		vc.n = verifC17LargeSizes[kind]
+	case kind <= 11: // the metachain group
+		vc.n = 400
+	default:
+		vc.n = rapid.IntRange(64, 400).Draw(rt, "nRandom")
+	}
+	n := vc.n
+	off := rapid.IntRange(0, verifC17LargePoolSize-1).Draw(rt, "poolOffset")
+	stride := rapid.IntRange(1, verifC17LargePoolSize-1).Draw(rt, "poolStride")
+	for i := 0; i < n; i++ {
+		vc.group = append(vc.group, (off+i*stride)%verifC17LargePoolSize)
+	}
+	vc.fallback = rapid.IntRange(0, 7).Draw(rt, "fallback") == 7
+	vc.thr = verifC17Threshold(n, vc.fallback)
+	t := vc.thr
+
+	var k int
+	switch rapid.IntRange(0, 11).Draw(rt, "kKind") {
+	case 0:
+		k = t - 2
+	case 1, 2, 3, 4:
+		k = t - 1
+	case 5, 6, 7:
+		k = t
+	case 8:
+		k = t + 1
+	case 9:
+		k = n
+	case 10:
+		k = rapid.IntRange(n/2, t).Draw(rt, "kMid")
+	default:
+		k = rapid.IntRange(1, n).Draw(rt, "k")
+	}
+	if k < 1 {
+		k = 1
+	}
+	if k > n {
+		k = n
+	}
+
+	// which members sign
+	member := make([]bool, n)
+	period := 0
+	switch sKind := rapid.IntRange(0, 10).Draw(rt, "sKind"); {
+	case sKind == 0:
+		vc.shape = "first-k"
+		for i := 0; i < k; i++ {
+			member[i] = true
+		}
+	case sKind == 1:
+		vc.shape = "leader+last"
+		member[0] = true
+		for i := 0; i < k-1; i++ {
+			member[n-1-i] = true
+		}
+	case sKind == 7:
+		vc.shape = "leader+run"
+		member[0] = true
+		start := rapid.IntRange(1, n-1).Draw(rt, "runStart")
+		for i := 0; i < k-1; i++ {
+			member[1+(start-1+i)%(n-1)] = true
+		}
+	case sKind >= 8:
+		vc.shape = "random"
+		perm := make([]int, n)
+		for i := range perm {
+			perm[i] = i
+		}
+		start := 1
+		if rapid.IntRange(0, 7).Draw(rt, "noLeader") == 7 {
+			start = 0
+		}
+		for i := start; i < k && i < n-1; i++ {
+			j := rapid.IntRange(i, n-1).Draw(rt, "perm")
+			perm[i], perm[j] = perm[j], perm[i]
+		}
+		for i := 0; i < k; i++ {
+			member[perm[i]] = true
+		}
+	default: // 2..6
+		var periods []int
+		for p := 8; p < n && p <= 256; p *= 2 {
+			periods = append(periods, p)
+		}
+		period = periods[len(periods)-1] // the largest one allows the finest control of |S|
+		if rapid.Bool().Draw(rt, "smallerPeriod") {
+			period = rapid.SampledFrom(periods).Draw(rt, "period")
+		}
+		vc.shape = fmt.Sprintf("periodic-%d", period)
+		// residues in the order 0, then an affine permutation of the others
+		a := rapid.IntRange(0, period-1).Draw(rt, "residueStart")
+		m := 2*rapid.IntRange(0, period/2-1).Draw(rt, "residueStep") + 1
+		have := 0
+		for j := -1; j < period; j++ {
+			r := 0
+			if j >= 0 {
+				r = (a + j*m) % period
+				if r == 0 {
+					continue
+				}
+			}
+			w := (n - r + period - 1) / period // members i < n with i mod period == r
+			if have+w > k && have > 0 {
+				continue
+			}
+			for i := r; i < n; i += period {
+				member[i] = true
+			}
+			have += w
+		}
+	}
+	for i := 0; i < n; i++ {
+		if member[i] {
+			vc.signers = append(vc.signers, i)
+		}
+	}
+
+	// focus region for the bits nobody signed for
+	size := (n + 7) / 8
+	top := period
+	if top == 0 {
+		top = 8
+		for top*2 < n {
+			top *= 2
+		}
+	}
+	topFrom := top * ((n - 1) / top)
+	chunkFrom := 64 * ((size - 1) / 8)
+	column := -1
+	var inFocus func(i int) bool
+	switch rapid.IntRange(0, 6).Draw(rt, "focus") {
+	case 3, 4:
+		vc.shape += "/any"
+		inFocus = func(int) bool { return true }
+	case 0, 1, 2:
+		vc.shape += fmt.Sprintf("/top>=%d", topFrom)
+		inFocus = func(i int) bool { return i >= topFrom }
+	case 5:
+		vc.shape += fmt.Sprintf("/last-chunk>=%d", chunkFrom)
+		inFocus = func(i int) bool { return i >= chunkFrom }
+	default:
+		column = rapid.IntRange(0, 7).Draw(rt, "byteColumn")
+		vc.shape += fmt.Sprintf("/byte-column-%d", column)
+		inFocus = func(i int) bool { return (i/8)%8 == column }
+	}
+
+	exact := make([]byte, size)
+	for _, s := range vc.signers {
+		verifC17SetBit(exact, s)
+	}
+	b := append([]byte(nil), exact...)
+	padding := make([]int, 0, 8)
+	for i := n; i < 8*size; i++ {
+		padding = append(padding, i)
+	}
+	nonSigners := make([]int, 0, n)
+	for i := 0; i < n; i++ {
+		if !member[i] && inFocus(i) {
+			nonSigners = append(nonSigners, i)
+		}
+	}
+	if len(nonSigners) == 0 {
+		for i := 0; i < n; i++ {
+			if !member[i] {
+				nonSigners = append(nonSigners, i)
+			}
+		}
+	}
+	switch modeKind := rapid.IntRange(0, 15).Draw(rt, "bitmapMode"); {
+	case modeKind <= 1:
+		vc.mode = "exact"
+	case modeKind == 10:
+		vc.mode = "padding-some"
+		for _, p := range padding {
+			if rapid.Bool().Draw(rt, "padBit") {
+				verifC17SetBit(b, p)
+			}
+		}
+	case modeKind == 11:
+		vc.mode = "padding-all"
+		for _, p := range padding {
+			verifC17SetBit(b, p)
+		}
+	case modeKind <= 6:
+		// claim the quorum with bits that nobody signed for
+		vc.mode = "fill-to-quorum"
+		want := t + rapid.IntRange(0, 1).Draw(rt, "over")
+		have := len(vc.signers)
+		order := rapid.IntRange(0, 2).Draw(rt, "fillOrder")
+		if order == 0 && len(padding) > 0 { // padding positions first, then (optionally) non-signers upwards
+			for _, p := range padding {
+				if have >= want {
+					break
+				}
+				verifC17SetBit(b, p)
+				have++
+			}
+			if !rapid.Bool().Draw(rt, "alsoNonSigners") {
+				break
+			}
+		}
+		for i := range nonSigners {
+			if have >= want {
+				break
+			}
+			p := nonSigners[i]
+			if order == 2 { // from the highest index downwards
+				p = nonSigners[len(nonSigners)-1-i]
+			}
+			verifC17SetBit(b, p)
+			have++
+		}
+	case modeKind <= 9:
+		vc.mode = "plus-nonsigners"
+		if len(nonSigners) > 0 {
+			cnt := rapid.IntRange(1, 3).Draw(rt, "extra")
+			for i := 0; i < cnt; i++ {
+				verifC17SetBit(b, nonSigners[rapid.IntRange(0, len(nonSigners)-1).Draw(rt, "extraIdx")])
+			}
+		}
+	case modeKind == 12:
+		vc.mode = "minus-signers"
+		cnt := rapid.IntRange(1, 2).Draw(rt, "drop")
+		for i := 0; i < cnt; i++ {
+			verifC17ClearBit(b, vc.signers[rapid.IntRange(0, len(vc.signers)-1).Draw(rt, "dropIdx")])
+		}
+	case modeKind == 13:
+		vc.mode = "longer"
+		extra := rapid.SliceOfN(rapid.Byte(), 1, 9).Draw(rt, "extraBytes")
+		if rapid.Bool().Draw(rt, "extraFull") {
+			for i := range extra {
+				extra[i] = 0xff
+			}
+		}
+		b = append(b, extra...)
+	case modeKind == 14:
+		switch rapid.IntRange(0, 1).Draw(rt, "shorterOrOnes") {
+		case 0:
+			vc.mode = "shorter"
+			b = b[:len(b)-1]
+		default:
+			vc.mode = "all-ones"
+			for i := range b {
+				b[i] = 0xff
+			}
+		}
+	default:
+		vc.mode = "random"
+		b = rapid.SliceOfN(rapid.Byte(), size, size).Draw(rt, "randomBitmap")
+		b[0] |= 1
+	}
+	vc.bitmap = b
+	vc.tampered = rapid.IntRange(0, 11).Draw(rt, "tamper") == 11
+	return vc
+}
+
+func TestVerifC17_QuorumLargeGroups(t *testing.T) {
+	lf := verifC17GetLargeFixture()
+	if lf.initErr != nil {
+		t.Fatalf("fixture: %v", lf.initErr)
+	}
+	kit.Run(t, "C17", kit.Budget{Quick: 200, Thorough: 2000},
+		"group of n in {64,65,72,100,255,256,257,264,400 (x2)} (10/12) or uniform in 64..400 (2/12) distinct BLS keys out of a pool of 401; one of two fixed headers (shard header, meta block) whose per-key signature shares are cached; signer set S with |S| around the threshold as for small groups, placed as first k / leader + last k-1 / leader + contiguous run / random subset / periodic in the index with a power-of-two period 8..256; aggregated signature really produced by S (8% of cases: header changed after signing); bitmap = exact / + padding bits / filled up to the quorum / + 1-3 non-signer bits / - signer bits / all ones / random / 1-9 bytes longer / one byte shorter, the non-signer bits taken from a drawn focus region (anywhere, beyond the last power-of-two boundary e.g. indices >= 256, last partial 8-byte chunk, one byte position of every chunk); 1 in 8 cases uses the fallback threshold; non-trivial = |S| in {t-1,t}, bitmap of the expected length with the proposer bit set; distinct by (n, fallback, S, bitmap, tampered)",
+		func(rt *rapid.T, c *kit.Case) {
+			vc := verifC17GenLargeCase(rt)
+			hdrIdx := rapid.IntRange(0, len(lf.headers)-1).Draw(rt, "header")
+			sig, err := lf.aggregate(hdrIdx, vc.group, vc.signers)
+			if err != nil {
+				rt.Fatalf("fixture: aggregation: %v", err)
+			}
+			hdr := lf.headers[hdrIdx].Clone()
+			contributors := len(vc.signers)
+			if vc.tampered {
+				hdr.SetNonce(hdr.GetNonce() + 1)
+				contributors = 0
+			}
+			hdr.SetSignature(sig)
+			hdr.SetPubKeysBitmap(append([]byte(nil), vc.bitmap...))
+			hsv, err := lf.largeVerifier(vc.group, vc.fallback)
+			if err != nil {
+				rt.Fatalf("fixture: verifier: %v", err)
+			}
+			switch {
+			case vc.n <= 64:
+				c.Class("size:64")
+			case vc.n <= 128:
+				c.Class("size:65-128")
+			case vc.n <= 256:
+				c.Class("size:129-256")
+			default:
+				c.Class("size:257-400")
+			}
+			c.Class("shape:" + vc.shape[:strings.IndexByte(vc.shape, '/')])
+			c.Class("focus:" + strings.SplitN(vc.shape[strings.IndexByte(vc.shape, '/')+1:], ">", 2)[0])
+			verifC17Judge(c, hsv, hdr, vc, contributors)
+		})
+}
+
+// Fixture sanity for the large groups (see TestVerifC17_FixtureHonestAccepted): an honest quorum header of a large
+// group is accepted and the cached shares aggregate to the same signature as the MultiSigner API produces.
+func TestVerifC17_FixtureHonestAcceptedLarge(t *testing.T) {
+	kit.Silence()
+	lf := verifC17GetLargeFixture()
+	if lf.initErr != nil {
+		t.Fatalf("fixture: %v", lf.initErr)
+	}
+	for hdrIdx, n := range []int{64, 400} {
+		group := make([]int, n)
+		for i := range group {
+			group[i] = (3 + 5*i) % verifC17LargePoolSize
+		}
+		thr := verifC17Threshold(n, false)
+		signers := []int{0}
+		for i := n - 1; len(signers) < thr; i-- {
+			signers = append(signers, i)
+		}
+		sort.Ints(signers)
+		sig, err := lf.aggregate(hdrIdx, group, signers)
+		if err != nil {
+			t.Fatalf("fixture: %v", err)
+		}
+		if n == 64 {
+			// the cached-share path gives the bytes of the high-level API (pool keys < 67 only)
+			small := make([]int, n)
+			for i := range small {
+				small[i] = (3 + 5*i) % verifC17PoolSize
+			}
+			a, err1 := lf.aggregate(hdrIdx, small, signers)
+			b, err2 := lf.signViaMultiSigner(small, signers, lf.hashes[hdrIdx])
+			if err1 != nil || err2 != nil || !bytes.Equal(a, b) {
+				t.Fatalf("fixture: cached-share aggregation and MultiSigner aggregation differ for n=%d (%v, %v)", n, err1, err2)
+			}
+		}
+		bm := make([]byte, (n+7)/8)
+		for _, s := range signers {
+			verifC17SetBit(bm, s)
+		}
+		hdr := lf.headers[hdrIdx].Clone()
+		hdr.SetSignature(sig)
+		hdr.SetPubKeysBitmap(bm)
+		hsv, err := lf.largeVerifier(group, false)
+		if err != nil {
+			t.Fatalf("fixture: %v", err)
+		}
+		if err = hsv.VerifySignature(hdr); err != nil {
+			t.Fatalf("fixture: honest header with n=%d, %d signers, bitmap %x rejected: %v", n, len(signers), bm, err)
+		}
+	}
 }
